@@ -577,4 +577,26 @@ C19_Cmd(s, e) ==
 \* unpause -> Canary), promotion of exactly the validated replica set, rollback after fail
 C19_Step(s, e) == C19_Cmd(s, e) /\ C14_EDS(s, e) /\ C05_Step(s, e) /\ C07_Step(s, e)
 
+
+-----------------------------------------------------------------------------
+(* C11 - faults and crashes: every safety formula on every step of the faulted run (Trace.tla conjoins them), and   *)
+(* the final state after failure-free convergence equals the final state of the failure-free run, modulo names and *)
+(* instants                                                                                                        *)
+
+FinalAbs(s) ==
+    [ pods |-> { <<p.ns, p.node, p.hash, p.ready, p.phase, p.res>> : p \in { q \in Pods(s) : ~q.term } },
+      rs   |-> { <<r.ns, r.tmpl, r.status, r.desired, r.current, r.ready, r.available>> : r \in RSs(s) },
+      eds  |-> { <<d.key, d.tmpl, d.hasCanary, CNodes(d), d.state, d.desired, d.current, d.ready, d.available, d.upToDate,
+                   IF d.active > 0 /\ HasRS(s, d.active) THEN RSOf(s, d.active).tmpl ELSE "">> : d \in EDSs(s) } ]
+
+C11_Final(ref, e) ==
+    (e.ev = "faultEnd") =>
+      /\ NT(<<"C11", e.args.label>>)
+      /\ e.args.quiet = "true"
+      /\ FinalAbs(e.state) = FinalAbs(ref)
+
+C11_Safety(s, e) ==
+    /\ C01_Step(s, e) /\ C03_Step(s, e) /\ C04_Step(s, e) /\ C05_Step(s, e) /\ C12_Step(s, e) /\ C13_Step(s, e)
+    /\ ~e.res.panic
+
 =============================================================================
